@@ -21,6 +21,7 @@ func init() {
 			"(R6) file writers close the asynchronous writer before the file; (R7) the bytes handed to the queue are not backed by a buffer kept in the writer (the queue holds the slice, not a copy). " +
 			"Given Go's FIFO channel semantics and bufio's, these clauses are the mechanism of C07. Does not decide: disk write errors inside the consumer (ignored by design of the code), or what callers do with a rejection.",
 		RuleDocs: []string{
+			"C07.R9 each writer's flush step in the publisher's Flush is control-dependent (transitively) only on tests of the writer handles, not on the pause flag or other state: a flush request reaches every installed writer",
 			"C07.R1 occurrence count (<=1 on every path) of calls reaching the fallible enqueue in each writer method that is called from a loop over records",
 			"C07.R1h multi-enqueue header writers: every call site is dominated by the call that creates the queue, with no record write in between; queue capacity constant >= number of header enqueues",
 			"C07.R3 shape of the enqueue function: single select with a send of the parameter itself and a default arm; result values per arm",
@@ -66,6 +67,8 @@ func runC07(p *Prog, r *Report) {
 	c.ruleR5()
 	c.ruleR1()
 	c.ruleR6()
+	r.MinInstances["C07.R9"] = 3
+	c07R9(p, r)
 }
 
 // awChan returns the name of the async writer's channel field v is loaded from ("" otherwise).
